@@ -53,6 +53,7 @@ partial def pItem : P Item := do
   | "inmac" => do
     let m ← num; let arg ← num; let val ← tok
     pure (.inMacro m arg val (← pItems))
+  | "bad" => do let _kind ← tok; pure .badTarget
   | "ae" => do
     let mode ← tok
     let m : AE := if mode == "html" then .html else if mode == "json" then .json else .none
@@ -73,10 +74,30 @@ def pTemplate : P Template := do
   -- the template is named `t<i>.<ext>`: its initial mode is what the default callback says
   pure { layout, blocks, ae := modeOfName ("t." ++ ext) }
 
-def pCase : P Env := do
-  let _fam ← tok
+/-- the configuration suffix of the family token: `fam~LSPUB` — loader-backed?, custom syntax?,
+    path-join callback?, undefined behaviour (0 lenient, 1 chainable, 2 semi-strict, 3 strict),
+    block index for the `render_block` streams.  Only `U` and `B` matter to the model. -/
+def pCfg (fam : String) : UB × Nat :=
+  match (fam.splitOn "~") with
+  | [_, c] =>
+    let ds := c.toList
+    let ub : UB := match ds[3]? with
+      | some '1' => .chainable
+      | some '2' => .semiStrict
+      | some '3' => .strict
+      | _ => .lenient
+    let b : Nat := match ds[4]? with
+      | some '1' => 1
+      | some '2' => 2
+      | _ => 0
+    (ub, b)
+  | _ => (.lenient, 0)
+
+def pCase : P (Env × UB × Nat) := do
+  let fam ← tok
   let n ← num
-  rep n pTemplate
+  let env ← rep n pTemplate
+  pure (env, pCfg fam)
 
 def kindName : Kind → String
   | .invalidOperation => "InvalidOperation"
@@ -86,15 +107,11 @@ def kindName : Kind → String
   | .unknownBlock => "UnknownBlock"
   | .unknownFunction => "UnknownFunction"
   | .undefinedError => "UndefinedError"
-  | .recursion => "InvalidOperation"
+  | .recursion => "FUEL-EXHAUSTED"
   | .panic => "PANIC"
   | .unsupported => "UNSUPPORTED"
 
 def showErr (e : Err) : String := ">".intercalate (e.map kindName)
-
-/-- nesting fuel of the model run: far above every non-cyclic case the harness generates, and
-    (like the engine's recursion limit) reached only by cycles -/
-def FUEL : Nat := 4000
 
 /-- the render context of the harness (`V0` in `harness/src/bin/c06.rs`) -/
 def V0 : String := "C<&\"'/é0"
@@ -103,16 +120,20 @@ def handle (line : String) : String :=
   let case := (line.splitOn "\t").head!
   let toks := (case.splitOn " ").filter (· ≠ "")
   match (pCase.run toks) with
-  | .error e => s!"{case}\tbad-case:{e}\tn/a"
-  | .ok (env, _) =>
+  | .error e => s!"{case}\tbad-case:{e}\tn/a\tn/a\tn/a"
+  | .ok ((env, ub, b), _) =>
     let showRes (r : Except Err (List String)) : String :=
       match r with
       | .ok pieces => s!"ok:{String.join pieces}"
       | .error e => s!"err:{showErr e}"
-    -- third column: the Lean *specification* (`specRender`) when the case lies in the core
-    -- fragment for which `blocks_refine_spec` is proved
-    let spec := if decide (EnvOK env) then showRes (specRender env [(0, .str V0)] FUEL 0) else "n/a"
-    s!"{case}\t{showRes (render env [(0, .str V0)] FUEL 0)}\t{spec}"
+    let cfg : Cfg := { rootCtx := [(0, .str V0)], ub := ub }
+    -- the fuel for which `MJ.C06.rendering_terminates` shows that the model's fuel is never what
+    -- stops a render (no constant, no assumption)
+    let fuel := renderFuel env
+    -- third column: the Lean *specification* (`specRender`) when the case lies in the fragment
+    -- for which `blocks_refine_spec` is proved
+    let spec := if decide (EnvOK env) then showRes (specRender env cfg fuel 0) else "n/a"
+    s!"{case}\t{showRes (render env cfg fuel 0)}\t{spec}\t{showRes (renderThenBlock env cfg fuel 0 b)}\t{showRes (blockOnFreshState env cfg fuel 0 b)}"
 
 partial def loop (h : IO.FS.Stream) (out : IO.FS.Stream) : IO Unit := do
   let line ← h.getLine
